@@ -7,7 +7,7 @@
    no relation between them (rectangular exactly as square).
 
    Methods that write return (array after the call, panic of the call if any). *)
-From Typ Require Import Lib.Base Arrays.Array2D Arrays.Array2DProofs.
+From Typ Require Import Lib.Base Arrays.Array2D Arrays.Array2DProofs Arrays.Array2DCheck.
 Local Open Scope Z_scope.
 
 (* The index x + y*width used by all six sites stays inside the backing slice
@@ -172,3 +172,12 @@ Example C08_example :
   new2d_filled 0 3 2 5 = Ok (Arr 3 2 [5;5;5;5;5;5]) /\
   string_rows a = Ok [[1;2;3];[4;5;6]].
 Proof. vm_compute. repeat split; try discriminate; reflexivity. Qed.
+
+(* The correspondence check itself (Arrays/Array2DCheck.v, evaluated by bin/check on the
+   harness's observations of the real code) accepts a correct observation and rejects
+   one in which Set(2,1) on a 3x2 array had landed in cell (1,1). *)
+Example C08_check_example :
+  check_case (Case 3 2 CNew (Ok [0;0;0;0;0;0])
+    [(OSet 2 1 9, BMut None [(5,9)]); (OGet 2 1, BGet (Ok 9)); (ORow 1 [WWrite 0 4], BWin (Ok [0;0;9]) [4;0;9] [(3,4)])]) = true /\
+  check_case (Case 3 2 CNew (Ok [0;0;0;0;0;0]) [(OSet 2 1 9, BMut None [(4,9)])]) = false.
+Proof. vm_compute. split; reflexivity. Qed.
